@@ -516,7 +516,10 @@ class Flow:
 
             def visit_Lambda(self, n):
                 return n
-        return fuse_comprehension(T().generic_visit(comp))
+        out = T().generic_visit(comp)
+        for g in out.generators:
+            g.iter = _strip_seq(g.iter)         # iterating list(X) is iterating X
+        return fuse_comprehension(out)
 
     def _call(self, fname, *args):
         return ast.Call(func=ast.Name(id=fname, ctx=ast.Load()), args=list(args), keywords=[])
@@ -528,6 +531,16 @@ class Flow:
         defs = self.defs_at(node, nid)
         if not defs or depth <= 0:
             return n
+        if isinstance(n, ast.Name) and len(defs) > 1:
+            # `t = 0; for ...: t += e`  read after the loop is  sum(e for ...)
+            for d0 in defs:
+                how0 = self.def_how(d0, nid)
+                if how0[0] == "assign" and isinstance(how0[1], ast.Constant) and how0[1].value == 0 and not isinstance(how0[1].value, bool):
+                    built = self._loop_built(nid, d0, node)
+                    if built is not None and getattr(built, "_is_sum", False) and \
+                            all(any(d.stmt is a for a in built._acc_stmts) for d in defs if d is not d0):
+                        ex = self._expand_comp(built, d0, depth - 1, stack + ((nid, d0.id),))
+                        return ast.Call(func=ast.Name(id="sum", ctx=ast.Load()), args=[ex], keywords=[])
         alts = []
         for d in sorted(defs, key=lambda x: x.id):
             key = (nid, d.id)
@@ -541,7 +554,10 @@ class Flow:
             elif how[0] == "assign":
                 built = self._loop_built(nid, d, node) if isinstance(n, ast.Name) else None
                 if built is not None:
-                    alts.append(self._expand_comp(built, d, depth - 1, st))
+                    ex = self._expand_comp(built, d, depth - 1, st)
+                    if getattr(built, "_is_sum", False):
+                        ex = ast.Call(func=ast.Name(id="sum", ctx=ast.Load()), args=[ex], keywords=[])
+                    alts.append(ex)
                 else:
                     alts.append(self.expand(how[1], d, depth - 1, st))
             elif how[0] == "unpack":
@@ -630,9 +646,11 @@ class Flow:
         init = how[1]
         is_list = (isinstance(init, ast.List) and not init.elts) or (isinstance(init, ast.Call) and call_name(init) == "list" and not init.args)
         is_dict = (isinstance(init, ast.Dict) and not init.keys) or (isinstance(init, ast.Call) and call_name(init) in ("dict", "OrderedDict") and not init.args and not init.keywords)
-        if not (is_list or is_dict):
+        is_sum = isinstance(init, ast.Constant) and isinstance(init.value, (int, float)) and not isinstance(init.value, bool) and init.value == 0
+        if not (is_list or is_dict or is_sum):
             return None
         sites = []          # (kind, payload, for_stack, cond_stack, temps)
+        acc_stmts = []
         def_stack = [None]
 
         def walk(stmts, fors, conds, temps):
@@ -651,6 +669,15 @@ class Flow:
                     sites.append((s.value.func.attr, s.value, tuple(fors), tuple(conds), tuple(temps)))
                 elif isinstance(s, ast.Assign) and any(isinstance(t, ast.Subscript) and isinstance(t.value, ast.Name) and t.value.id == name for t in s.targets):
                     sites.append(("setitem", s, tuple(fors), tuple(conds), tuple(temps)))
+                elif is_sum and isinstance(s, ast.AugAssign) and isinstance(s.target, ast.Name) and s.target.id == name and isinstance(s.op, ast.Add) \
+                        and not any(isinstance(x, ast.Name) and x.id == name for x in ast.walk(s.value)):
+                    sites.append(("accumulate", s, tuple(fors), tuple(conds), tuple(temps)))
+                    acc_stmts.append(s)
+                elif is_sum and isinstance(s, ast.Assign) and len(s.targets) == 1 and isinstance(s.targets[0], ast.Name) and s.targets[0].id == name and fors \
+                        and isinstance(s.value, ast.BinOp) and isinstance(s.value.op, ast.Add) and isinstance(s.value.left, ast.Name) and s.value.left.id == name \
+                        and not any(isinstance(x, ast.Name) and x.id == name for x in ast.walk(s.value.right)):
+                    sites.append(("accumulate", ast.AugAssign(target=s.targets[0], op=ast.Add(), value=s.value.right), tuple(fors), tuple(conds), tuple(temps)))
+                    acc_stmts.append(s)
                 elif isinstance(s, (ast.AugAssign, ast.Delete)) and any(isinstance(x, ast.Name) and x.id == name for x in ast.walk(s)):
                     sites.append(("other", s, tuple(fors), tuple(conds), tuple(temps)))
                 if isinstance(s, ast.For):
@@ -684,6 +711,8 @@ class Flow:
             return None
         if is_dict and not all(k == "setitem" for k, *_ in sites):
             return None
+        if is_sum and not (len(sites) == 1 and sites[0][0] == "accumulate"):
+            return None
         import copy as _copy
 
         def subst(e, temps):
@@ -706,6 +735,8 @@ class Flow:
 
         def elt_of(site):
             k, c, _, _, temps = site
+            if is_sum:
+                return subst(c.value, temps), None
             if is_list:
                 return subst(c.args[0], temps), None
             tgt = [t for t in c.targets if isinstance(t, ast.Subscript)][0]
@@ -726,6 +757,13 @@ class Flow:
         else:
             return None
         gen = ast.comprehension(target=_copy.deepcopy(loop.target), iter=_copy.deepcopy(loop.iter), ifs=gen_ifs, is_async=0)
+        if is_sum:
+            comp = ast.GeneratorExp(elt=v, generators=[gen])
+            self._sum_built = getattr(self, "_sum_built", set())
+            self._sum_built.add(id(comp))
+            comp._is_sum = True
+            comp._acc_stmts = acc_stmts
+            return ast.fix_missing_locations(ast.copy_location(comp, loop))
         comp = ast.ListComp(elt=v, generators=[gen]) if is_list else ast.DictComp(key=key, value=v, generators=[gen])
         return ast.fix_missing_locations(ast.copy_location(comp, loop))
 
